@@ -16,7 +16,9 @@ import (
 	"encoding/json"
 	"flag"
 	"fmt"
+	"io"
 	"math/rand"
+	"net/http/httptest"
 	"os"
 	"regexp"
 	"sort"
@@ -24,10 +26,12 @@ import (
 	"strings"
 	"time"
 
+	"github.com/basekick-labs/arc/internal/api"
 	"github.com/basekick-labs/arc/internal/config"
 	"github.com/basekick-labs/arc/internal/ingest"
 	"github.com/basekick-labs/arc/pkg/models"
 	store "github.com/basekick-labs/arc/verifharness/internal/lineprotostore"
+	"github.com/gofiber/fiber/v2"
 	"github.com/rs/zerolog"
 )
 
@@ -71,6 +75,8 @@ type denT struct {
 }
 type scen struct {
 	Fam    string  `json:"fam"`
+	Req    int     `json:"req"`
+	Copy   int     `json:"copy"`
 	Strict bool    `json:"strict"`
 	Weak   bool    `json:"weak"`
 	Foci   []focus `json:"foci"`
@@ -114,6 +120,7 @@ type result struct {
 	E2ELines      int            `json:"e2e_lines"`
 	E2EBatches    int            `json:"e2e_batches"`
 	E2EFiles      int            `json:"e2e_parquet_files"`
+	SeqRequests   int            `json:"sequence_requests"`
 	PerFamily     map[string]int `json:"per_family"`
 	PerSection    map[string]int `json:"per_focus_section"`
 	Lenient       map[string]int `json:"lenient_observations"`
@@ -249,10 +256,18 @@ var validMeas = regexp.MustCompile(`^[a-zA-Z][a-zA-Z0-9_-]*$`)
 
 // build concretises a scenario; measurement != "" forces the canonical measurement symbol.
 func build(sc *scen, rng *rand.Rand, measurement string) (*concrete, error) {
+	if measurement == "" {
+		return buildPreset(sc, rng, nil)
+	}
+	return buildPreset(sc, rng, map[string]string{"M": measurement})
+}
+
+// buildPreset concretises a scenario with some symbols fixed (measurement, canonical keys).
+func buildPreset(sc *scen, rng *rand.Rand, preset map[string]string) (*concrete, error) {
 	for attempt := 0; attempt < 50; attempt++ {
 		c := &concretiser{sym: map[string]string{}, rng: rng}
-		if measurement != "" {
-			c.sym["M"] = measurement
+		for k, v := range preset {
+			c.sym[k] = v
 		}
 		if sc.Ts.Present {
 			c.ts = digitsText(sc.Ts.Neg, sc.Ts.Digits)
@@ -601,7 +616,7 @@ func main() {
 		r.batches(passed, rng)
 	}
 	if res.Infra == "" {
-		r.e2e(passed, rng, *e2eMax)
+		r.e2e(scs, passed, rng, *e2eMax)
 	}
 	ob, _ := json.MarshalIndent(res, "", " ")
 	if err := os.WriteFile(*outp, ob, 0o644); err != nil {
@@ -736,11 +751,181 @@ func kindOf(v interface{}) string {
 	return "?"
 }
 
-// e2e: the real write path up to Parquet.
-func (r *runner) e2e(passed []*scen, rng *rand.Rand, max int) {
+// writePath drives one long-lived LineProtocolHandler (the real handleWrite behind a fiber app)
+// on one ArrowBuffer with an in-memory storage backend.
+type writePath struct {
+	r   *runner
+	mem *store.Mem
+	buf *ingest.ArrowBuffer
+	app *fiber.App
+	idc int64
+}
+
+func newWritePath(r *runner) *writePath {
+	mem := store.NewMem()
+	cfg := &config.IngestConfig{MaxBufferSize: 1 << 30, MaxBufferAgeMS: 3600 * 1000, Compression: "snappy",
+		FlushWorkers: 2, FlushQueueSize: 16, ShardCount: 4}
+	buf := ingest.NewArrowBuffer(cfg, mem, zerolog.Nop())
+	h := api.NewLineProtocolHandler(buf, zerolog.Nop())
+	app := fiber.New(fiber.Config{DisableStartupMessage: true, BodyLimit: 64 << 20})
+	h.RegisterRoutes(app)
+	return &writePath{r: r, mem: mem, buf: buf, app: app}
+}
+
+// send posts one request body through the real handler, flushes, reads every Parquet object back
+// and judges every line of the request.
+func (w *writePath) send(lines []*e2eLine, prec string, family string) bool {
+	r := w.r
+	var body strings.Builder
+	for _, l := range lines {
+		// the id field goes first: it contains no quote or backslash, so the lexical context of
+		// everything after it is the same as in the line that was checked alone
+		body.WriteString(l.c.mt + " zid=" + strconv.FormatInt(l.id, 10) + "i," + l.c.fs)
+		if l.c.sc.Ts.Present {
+			body.WriteString(" " + l.c.tsText)
+		}
+		body.WriteString("\n")
+	}
+	t0 := nowMicro()
+	req := httptest.NewRequest("POST", "/api/v1/write/line-protocol?precision="+prec, strings.NewReader(body.String()))
+	req.Header.Set("x-arc-database", "verifdb")
+	resp, err := w.app.Test(req, -1)
+	if err != nil {
+		r.res.Infra = "fiber app.Test: " + err.Error()
+		return false
+	}
+	rb, _ := io.ReadAll(resp.Body)
+	resp.Body.Close()
+	ferr := w.buf.FlushAll(context.Background())
+	t1 := nowMicro()
+	files := w.mem.Snapshot()
+	r.res.E2EBatches++
+	r.res.E2ELines += len(lines)
+	r.res.E2EFiles += len(files)
+	wit := witness{Line: body.String(), Precision: prec, Family: family, Stage: "handleWrite->ArrowBuffer->Parquet"}
+	if resp.StatusCode != 204 || ferr != nil {
+		wit.Note = fmt.Sprintf("HTTP %d %s; flush error %v", resp.StatusCode, string(rb), ferr)
+		wit.Got = resp.StatusCode
+		r.violate("request-of-valid-points-fails-in-the-write-path:"+family, wit)
+		return true
+	}
+	stored := map[int64]store.Row{}
+	storedMeas := map[int64]string{}
+	types := map[string]map[string]string{}
+	dupOrLost := ""
+	for path, data := range files {
+		parts := strings.Split(path, "/")
+		if len(parts) < 3 || parts[0] != "verifdb" {
+			dupOrLost = "unexpected object " + path
+			continue
+		}
+		tbl, err := store.ReadParquet(data)
+		if err != nil {
+			r.res.Infra = fmt.Sprintf("cannot read back %s: %v", path, err)
+			return false
+		}
+		if types[parts[1]] == nil {
+			types[parts[1]] = map[string]string{}
+		}
+		for k, v := range tbl.Types {
+			types[parts[1]][k] = v
+		}
+		for _, row := range tbl.Rows {
+			id, ok := row["zid"].(int64)
+			if !ok {
+				dupOrLost = "row without zid"
+				continue
+			}
+			if _, dup := stored[id]; dup {
+				dupOrLost = fmt.Sprintf("point %d stored twice", id)
+			}
+			stored[id] = row
+			storedMeas[id] = parts[1]
+		}
+	}
+	if dupOrLost != "" {
+		wit.Note = dupOrLost
+		r.violate("stored-rows:duplicated-or-foreign-row", wit)
+	}
+	if len(stored) != len(lines) {
+		wit.Note = fmt.Sprintf("%d points written, %d rows stored", len(lines), len(stored))
+		wit.Expected = len(lines)
+		wit.Got = len(stored)
+		r.violate("stored-rows:point-count-differs", wit)
+	}
+	for _, l := range lines {
+		row, ok := stored[l.id]
+		lw := witness{Line: l.c.mt + " zid=" + strconv.FormatInt(l.id, 10) + "i," + l.c.fs + " " + l.c.tsText, Precision: prec,
+			Family: l.c.sc.Fam, Foci: l.c.sc.Foci, Expected: expView(l.c.exp), Stage: "handleWrite->ArrowBuffer->Parquet"}
+		if !ok {
+			lw.Got = "no row"
+			r.violate(e2eSig(l.c.sc, "stored-rows:point-missing"), lw)
+			continue
+		}
+		lw.Got = row
+		if storedMeas[l.id] != l.c.exp.Meas {
+			r.violate(e2eSig(l.c.sc, "stored-rows:wrong-measurement"), lw)
+			continue
+		}
+		what := compareRow(row, l.c.exp, types[l.c.exp.Meas], t0, t1)
+		if what != "" {
+			lw.Note = what
+			sig := "stored-rows:" + strings.SplitN(what, " ", 2)[0]
+			if family == "sequence" {
+				sig += ":second-or-later-request-with-sparse-columns"
+				lw.Note += " (request " + strconv.Itoa(l.c.sc.Req) + " of a dense-then-sparse sequence for one measurement on one handler)"
+			}
+			r.violate(e2eSig(l.c.sc, sig), lw)
+		}
+	}
+	return true
+}
+
+// sequences: TLC's two-request family. Request 1 is dense (every point has both tags and both
+// fields, distinctive values), request 2 sparse (points of the same measurement with different
+// key sets), on the same handler instance; repeated with fresh values.
+func (r *runner) sequences(w *writePath, scs []*scen, rng *rand.Rand, rounds int) {
+	var dense, sparse []*scen
+	for _, sc := range scs {
+		if sc.Fam == "seq" && sc.Req == 1 {
+			dense = append(dense, sc)
+		}
+		if sc.Fam == "seq" && sc.Req == 2 {
+			sparse = append(sparse, sc)
+		}
+	}
+	if len(dense) == 0 || len(sparse) == 0 {
+		return
+	}
+	for round := 0; round < rounds && r.res.Infra == ""; round++ {
+		preset := map[string]string{"M": fmt.Sprintf("seq%d", round), "K1": "ka", "K2": "kb", "F1": "fa", "F2": "fb"}
+		for _, reqSet := range [][]*scen{dense, sparse} {
+			var lines []*e2eLine
+			for _, sc := range reqSet {
+				c, err := buildPreset(sc, rng, preset)
+				if err != nil {
+					r.res.Infra = err.Error()
+					return
+				}
+				w.idc++
+				lines = append(lines, &e2eLine{c: c, id: w.idc})
+			}
+			if !w.send(lines, "ns", "sequence") {
+				return
+			}
+			r.res.SeqRequests++
+		}
+	}
+}
+
+// e2e: the real write path up to Parquet, through the real HTTP handler.
+func (r *runner) e2e(all []*scen, passed []*scen, rng *rand.Rand, max int) {
+	w := newWritePath(r)
+	defer w.buf.Close()
+	r.sequences(w, all, rng, 3)
 	var cand []*scen
 	for _, sc := range passed {
-		meas := false
+		meas := sc.Fam == "seq"
 		for _, f := range sc.Foci {
 			if f.Sec == "meas" {
 				meas = true
@@ -761,28 +946,20 @@ func (r *runner) e2e(passed []*scen, rng *rand.Rand, max int) {
 		cand = cand[:max]
 		rng.Shuffle(len(cand), func(i, j int) { cand[i], cand[j] = cand[j], cand[i] })
 	}
-	mem := store.NewMem()
-	cfg := &config.IngestConfig{MaxBufferSize: 1 << 30, MaxBufferAgeMS: 3600 * 1000, Compression: "snappy",
-		FlushWorkers: 2, FlushQueueSize: 16, ShardCount: 4}
-	buf := ingest.NewArrowBuffer(cfg, mem, zerolog.Nop())
-	defer buf.Close()
-	ctx := context.Background()
 	byPrec := map[string][]*scen{}
 	for _, sc := range cand {
 		byPrec[sc.Ts.Prec] = append(byPrec[sc.Ts.Prec], sc)
 	}
-	var idc int64
 	batchNo := 0
-	precs := []string{"ns", "us", "ms", "s"}
-	for _, prec := range precs {
+	for _, prec := range []string{"ns", "us", "ms", "s"} {
 		list := byPrec[prec]
-		for i := 0; i < len(list); {
+		for i := 0; i < len(list) && r.res.Infra == ""; {
 			n := 8 + rng.Intn(40)
 			if i+n > len(list) {
 				n = len(list) - i
 			}
 			batchNo++
-			// group lines into measurements with compatible column kinds
+			// group lines into measurements with compatible column kinds (sparse columns on purpose)
 			type grp struct {
 				name  string
 				kinds map[string]string
@@ -790,7 +967,7 @@ func (r *runner) e2e(passed []*scen, rng *rand.Rand, max int) {
 			var groups []*grp
 			var lines []*e2eLine
 			for _, sc := range list[i : i+n] {
-				idc++
+				w.idc++
 				placed := false
 				for gi, g := range groups {
 					if rng.Intn(3) == 0 {
@@ -819,7 +996,7 @@ func (r *runner) e2e(passed []*scen, rng *rand.Rand, max int) {
 						for k, v := range c.exp.Fields {
 							g.kinds[k] = kindOf(v)
 						}
-						lines = append(lines, &e2eLine{c: c, id: idc, grp: gi})
+						lines = append(lines, &e2eLine{c: c, id: w.idc, grp: gi})
 						placed = true
 						break
 					}
@@ -838,114 +1015,17 @@ func (r *runner) e2e(passed []*scen, rng *rand.Rand, max int) {
 					for k, v := range c.exp.Fields {
 						g.kinds[k] = kindOf(v)
 					}
-					lines = append(lines, &e2eLine{c: c, id: idc, grp: len(groups) - 1})
+					lines = append(lines, &e2eLine{c: c, id: w.idc, grp: len(groups) - 1})
 				}
 			}
 			i += n
-			var body strings.Builder
-			for _, l := range lines {
-				// the id field goes first: it contains no quote or backslash, so the lexical context of
-				// everything after it is the same as in the line that was checked alone
-				body.WriteString(l.c.mt + " zid=" + strconv.FormatInt(l.id, 10) + "i," + l.c.fs)
-				if l.c.sc.Ts.Present {
-					body.WriteString(" " + l.c.tsText)
-				}
-				body.WriteString("\n")
-			}
-			// === the steps of LineProtocolHandler.handleWrite ===
-			t0 := nowMicro()
-			recs := r.parser.ParseBatchWithPrecision([]byte(body.String()), prec)
-			cols := ingest.BatchToColumnar(recs)
-			werr := ""
-			for m, rec := range cols {
-				if !validMeas.MatchString(m) {
-					werr = "handler would reject measurement " + m
-					break
-				}
-				if err := buf.WriteColumnarRecord(ctx, "verifdb", rec); err != nil {
-					werr = err.Error()
-					break
-				}
-			}
-			ferr := buf.FlushAll(ctx)
-			t1 := nowMicro()
-			files := mem.Snapshot()
-			r.res.E2EBatches++
-			r.res.E2ELines += len(lines)
-			r.res.E2EFiles += len(files)
-			wit := witness{Line: body.String(), Precision: prec, Family: "e2e", Stage: "ArrowBuffer->Parquet"}
-			if werr != "" || ferr != nil {
-				wit.Note = fmt.Sprintf("write error %q flush error %v", werr, ferr)
-				r.violate("accepted-batch-of-valid-points-fails-in-the-write-path", wit)
-				continue
-			}
-			// read back
-			stored := map[int64]store.Row{}
-			storedMeas := map[int64]string{}
-			types := map[string]map[string]string{}
-			dupOrLost := ""
-			for path, data := range files {
-				parts := strings.Split(path, "/")
-				if len(parts) < 3 || parts[0] != "verifdb" {
-					dupOrLost = "unexpected object " + path
-					continue
-				}
-				tbl, err := store.ReadParquet(data)
-				if err != nil {
-					r.res.Infra = fmt.Sprintf("cannot read back %s: %v", path, err)
-					return
-				}
-				if types[parts[1]] == nil {
-					types[parts[1]] = map[string]string{}
-				}
-				for k, v := range tbl.Types {
-					types[parts[1]][k] = v
-				}
-				for _, row := range tbl.Rows {
-					id, ok := row["zid"].(int64)
-					if !ok {
-						dupOrLost = "row without zid"
-						continue
-					}
-					if _, dup := stored[id]; dup {
-						dupOrLost = fmt.Sprintf("point %d stored twice", id)
-					}
-					stored[id] = row
-					storedMeas[id] = parts[1]
-				}
-			}
-			if dupOrLost != "" {
-				wit.Note = dupOrLost
-				r.violate("stored-rows:duplicated-or-foreign-row", wit)
-			}
-			if len(stored) != len(lines) {
-				wit.Note = fmt.Sprintf("%d points written, %d rows stored", len(lines), len(stored))
-				wit.Expected = len(lines)
-				wit.Got = len(stored)
-				r.violate("stored-rows:point-count-differs", wit)
-			}
-			for _, l := range lines {
-				row, ok := stored[l.id]
-				lw := witness{Line: l.c.mt + " zid=" + strconv.FormatInt(l.id, 10) + "i," + l.c.fs + " " + l.c.tsText, Precision: prec,
-					Family: l.c.sc.Fam, Foci: l.c.sc.Foci, Expected: expView(l.c.exp), Stage: "ArrowBuffer->Parquet"}
-				if !ok {
-					lw.Got = "no row"
-					r.violate(e2eSig(l.c.sc, "stored-rows:point-missing"), lw)
-					continue
-				}
-				lw.Got = row
-				if storedMeas[l.id] != l.c.exp.Meas {
-					r.violate(e2eSig(l.c.sc, "stored-rows:wrong-measurement"), lw)
-					continue
-				}
-				what := compareRow(row, l.c.exp, types[l.c.exp.Meas], t0, t1)
-				if what != "" {
-					lw.Note = what
-					r.violate(e2eSig(l.c.sc, "stored-rows:"+strings.SplitN(what, " ", 2)[0]), lw)
-				}
+			if !w.send(lines, prec, "e2e") {
+				return
 			}
 		}
 	}
+	// the sequence once more, after many requests went through the same handler
+	r.sequences(w, all, rng, 3)
 }
 
 // e2eSig: a line that carries one of the syntactic features with a known mechanism is
